@@ -355,7 +355,7 @@ def main(argv=None):
                   "theorem": "C07_knock_out_spec (coq/theories/Properties/C07.v)"}
         rep.violation({"code": code, "op": opname}, replay)
 
-    if broken and rep.violations == 0 and not rep.known:
+    if broken and rep.violations == 0:      # known findings never hide a broken obligation
         rep.violation({"broken": True}, {"broken_obligations": broken,
                       "note": "proof obligation or correspondence machinery no longer checks; no failing input found"},
                       no_input=True)
